@@ -418,3 +418,59 @@ Lemma fold_set_bit_len : forall l set, length (fold_left set_bit l set) = length
 Proof. induction l as [|a l IH]; intros set; cbn [fold_left]; [reflexivity|]. rewrite IH. apply set_bit_len. Qed.
 Lemma zl_cons x l : zl (x :: l) = Z.of_N x :: zl l.
 Proof. reflexivity. Qed.
+
+(* ------------------------------------------------------------------ BitmapIter.Next: the two nested loops *)
+(* enough fuel: scan_bits does not depend on it *)
+Lemma scan_bits_fuel w : forall f1 f2 j, (N.to_nat (64 - j) < f1)%nat -> (N.to_nat (64 - j) < f2)%nat ->
+  scan_bits f1 w j = scan_bits f2 w j.
+Proof.
+  induction f1 as [|f1 IH]; intros f2 j H1 H2; [lia|]. destruct f2 as [|f2]; [lia|]. cbn [scan_bits].
+  destruct (N.ltb_spec j 64); [|reflexivity]. destruct (negb (N.land w (N.shiftl 1 j) =? 0)%N); [reflexivity|]. apply IH; lia.
+Qed.
+
+Lemma scan_bits_S f w j : scan_bits (S f) w j =
+  if (j <? 64)%N then (if negb (N.land w (N.shiftl 1 j) =? 0)%N then Some j else scan_bits f w (j + 1)) else None.
+Proof. reflexivity. Qed.
+
+(* the inner loop  for bi.j < 64 { if set[i]&(1<<j) != 0 { read = true; return true }; j++ }  on the word w;
+   mk j = the iterator state with that j, hit j = what the loop returns when it finds bit j *)
+Lemma inner_while {St R} (mk : N -> St) (hit : N -> R) (c : St -> M bool) (b : St -> M (ctl St R)) (p : St -> M St) (w : N) :
+  (forall j, iter1 c b p (mk j) =
+     if (j <? 64)%N then (if negb (N.land w (N.shiftl 1 j) =? 0)%N then Ret (inr (inr (hit j))) else Ret (inl (mk (j + 1)%N)))
+     else Ret (inr (inl (mk j)))) ->
+  forall n j f, (N.to_nat (64 - j) <= n)%nat -> (n < f)%nat ->
+  while f c b p (mk j) = match scan_bits (S n) w j with Some j' => Ret (inr (hit j')) | None => Ret (inl (mk (N.max j 64))) end.
+Proof.
+  intros H1. induction n as [|n IH]; intros j f Hn Hf; (destruct f as [|f]; [lia|]); rewrite while_iter, H1, scan_bits_S.
+  - destruct (N.ltb_spec j 64); [lia|]. cbn [bind]. replace (N.max j 64) with j by lia. reflexivity.
+  - destruct (N.ltb_spec j 64) as [Hj|Hj].
+    + destruct (negb (N.land w (N.shiftl 1 j) =? 0)%N); cbn [bind]; [reflexivity|].
+      rewrite IH by lia. destruct (scan_bits (S n) w (j + 1)); [reflexivity|]. replace (N.max (j + 1) 64) with (N.max j 64) by lia. reflexivity.
+    + cbn [bind]. replace (N.max j 64) with j by lia. reflexivity.
+Qed.
+
+(* the outer loop  for bi.i < len(set) { inner loop; i++; j = 0 }:  mk i j = the iterator state, hit i j = the result on a find *)
+Lemma outer_while {St R} (mk : nat -> N -> St) (hit : nat -> N -> R) (c : St -> M bool) (b : St -> M (ctl St R)) (p : St -> M St)
+  (set : list N) :
+  (forall i j, iter1 c b p (mk i j) =
+     if (i <? length set)%nat
+     then match scan_bits 65 (nth i set 0%N) j with Some j' => Ret (inr (inr (hit i j'))) | None => Ret (inl (mk (S i) 0%N)) end
+     else Ret (inr (inl (mk i j)))) ->
+  forall n i j f, (length set - i <= n)%nat -> (n < f)%nat ->
+  while f c b p (mk i j) =
+  match scan_w (skipn i set) i j with
+  | Some (i', j') => Ret (inr (hit i' j'))
+  | None => Ret (inl (mk (Nat.max i (length set)) (if (i <? length set)%nat then 0%N else j)))
+  end.
+Proof.
+  intros H1. induction n as [|n IH]; intros i j f Hn Hf; (destruct f as [|f]; [lia|]); rewrite while_iter, H1.
+  - destruct (Nat.ltb_spec i (length set)); [lia|]. cbn [bind]. rewrite skipn_all2 by lia. cbn [scan_w].
+    replace (Nat.max i (length set)) with i by lia. reflexivity.
+  - destruct (Nat.ltb_spec i (length set)) as [Hi|Hi].
+    + rewrite (skipn_nth_cons set i Hi). cbn [scan_w].
+      destruct (scan_bits 65 (nth i set 0%N) j) as [j'|]; cbn [bind]; [reflexivity|].
+      rewrite IH by lia. destruct (scan_w (skipn (S i) set) (S i) 0) as [[i' j']|]; [reflexivity|].
+      replace (Nat.max (S i) (length set)) with (Nat.max i (length set)) by lia.
+      destruct (Nat.ltb_spec (S i) (length set)); reflexivity.
+    + cbn [bind]. rewrite skipn_all2 by lia. cbn [scan_w]. replace (Nat.max i (length set)) with i by lia. reflexivity.
+Qed.
